@@ -316,6 +316,18 @@ impl Process {
                 options.set(key, value.clone());
             }
 
+            // what the action itself needs is not an output: an error keeps its code and message, a back its target
+            let own: &[&str] = match action.event {
+                EventAction::Error => &[consts::ACT_ERR_CODE, consts::ACT_ERR_MESSAGE],
+                EventAction::Back => &[consts::ACT_SUBFLOW_TO],
+                _ => &[],
+            };
+            for key in own {
+                if let Some(value) = action.options.get_value(key) {
+                    options.set(key, value.clone());
+                }
+            }
+
             // retset the options by rets defination
             action.options = options;
         }
